@@ -177,9 +177,11 @@ def generate_cases(workdir, name, extends, cfg, defs="", timeout=600, workers=1,
     return path, res
 
 
-def validate_trace(workdir, name, extends, trace_path, invariants=(), timeout=900, defs="", heap="4g"):
+def validate_trace(workdir, name, extends, trace_path, invariants=(), timeout=900, defs="", heap="4g", consts=None):
     """Validates a recorded trace against a trace specification.  Returns (accepted, info, TlcResult)."""
     cfg = "SPECIFICATION TraceSpec\nPOSTCONDITION TraceAccepted\nCHECK_DEADLOCK FALSE\n"
+    if consts:
+        cfg += "CONSTANTS\n" + "".join(" %s = %s\n" % (k, v) for k, v in consts.items())
     for inv in invariants:
         cfg += "INVARIANT %s\n" % inv
     res = run_tlc(workdir, name, extends, cfg, defs=defs, workers=1, timeout=timeout, deque=True, heap=heap,
@@ -277,7 +279,20 @@ class Check:
         for m in result.get("mismatches", []):
             self.violation(stage, m)
 
-    def run_harness(self, binary, args, stage, timeout=2400):
+    def scratch_tmpdir(self):
+        """Directory for the temporary files the library itself creates (temp_file_name uses TMPDIR):
+        a memory-backed directory when there is one, else the work directory.  Removed by finish()."""
+        d = None
+        if os.path.isdir("/dev/shm") and os.access("/dev/shm", os.W_OK):
+            d = "/dev/shm/verif-%s-%d" % (self.pid, os.getpid())
+        else:
+            d = os.path.join(self.work, "tmp")
+        os.makedirs(d, exist_ok=True)
+        os.environ["TMPDIR"] = d
+        self._tmpdir = d
+        return d
+
+    def run_harness(self, binary, args, stage, timeout=900):
         """Runs the harness; a death by signal (abort, segfault) of the code under test is a violation."""
         prog = os.path.join(self.work, "progress.txt")
         a = list(args)
@@ -300,6 +315,8 @@ class Check:
 
     def finish(self, level="model_checking", rule=None, extra=None):
         wall = time.time() - self.t0
+        if getattr(self, "_tmpdir", None):
+            shutil.rmtree(self._tmpdir, ignore_errors=True)
         for kf in {json.dumps(k, sort_keys=True) for k in self.known}:
             k = json.loads(kf)
             log("KNOWN-FINDING: property=%s %s" % (self.pid, k.get("what", "")))
